@@ -202,10 +202,18 @@ func typeName(t *parser.Type) string {
 	}
 
 	name := t.Name
+	cppType := ""
+	if t.CppType != "" {
+		cppType = " cpp_type " + strings.ReplaceAll(joinQuotes(t.CppType), `"`, "##34;") + " "
+	}
 	if t.KeyType != nil && t.ValueType != nil {
-		name = fmt.Sprintf("%s<%s,%s>", t.Name, typeName(t.KeyType), typeName(t.ValueType))
+		name = fmt.Sprintf("%s%s<%s,%s>", t.Name, cppType, typeName(t.KeyType), typeName(t.ValueType))
 	} else if t.ValueType != nil && t.KeyType == nil {
-		name = fmt.Sprintf("%s<%s>", t.Name, typeName(t.ValueType))
+		if t.Name == "list" { // the grammar puts a list's cpp_type after the element type
+			name = fmt.Sprintf("%s<%s>%s", t.Name, typeName(t.ValueType), cppType)
+		} else {
+			name = fmt.Sprintf("%s%s<%s>", t.Name, cppType, typeName(t.ValueType))
+		}
 	}
 
 	if t.Annotations != nil {
